@@ -485,14 +485,15 @@ class WorkerPool:
         # Process all args
         if iterable_len is None and hasattr(iterable_of_args, '__len__'):
             iterable_len = len(iterable_of_args)
-        results = self.map_unordered(
-            func, ((args_idx, args) for args_idx, args in enumerate(iterable_of_args)), iterable_len, max_tasks_active,
-            chunk_size, n_splits, worker_lifespan, progress_bar, worker_init, worker_exit, task_timeout, 
-            worker_init_timeout, worker_exit_timeout, progress_bar_options, progress_bar_style
-        )
-
-        # Notify workers to forget about order
-        self._worker_comms.clear_keep_order()
+        try:
+            results = self.map_unordered(
+                func, ((args_idx, args) for args_idx, args in enumerate(iterable_of_args)), iterable_len,
+                max_tasks_active, chunk_size, n_splits, worker_lifespan, progress_bar, worker_init, worker_exit,
+                task_timeout, worker_init_timeout, worker_exit_timeout, progress_bar_options, progress_bar_style
+            )
+        finally:
+            # Notify workers to forget about order, also when the call did not complete
+            self._worker_comms.clear_keep_order()
 
         # Rearrange and return
         sorted_results = [result[1] for result in sorted(results, key=lambda result: result[0])]
@@ -614,41 +615,43 @@ class WorkerPool:
                                                                                         chunk_size, n_splits,
                                                                                         self.pool_params.n_jobs)
 
-        # Yield results in order
-        next_result_idx = 0
-        tmp_results = {}
-        if iterable_len is None and hasattr(iterable_of_args, '__len__'):
-            iterable_len = len(iterable_of_args)
-        for result_idx, result in self.imap_unordered(func, ((args_idx, args) for args_idx, args
-                                                             in enumerate(iterable_of_args)), iterable_len,
-                                                      max_tasks_active, chunk_size, n_splits, worker_lifespan,
-                                                      progress_bar, worker_init, worker_exit, task_timeout, 
-                                                      worker_init_timeout, worker_exit_timeout, progress_bar_options,
-                                                      progress_bar_style):
+        try:
+            # Yield results in order
+            next_result_idx = 0
+            tmp_results = {}
+            if iterable_len is None and hasattr(iterable_of_args, '__len__'):
+                iterable_len = len(iterable_of_args)
+            for result_idx, result in self.imap_unordered(func, ((args_idx, args) for args_idx, args
+                                                                 in enumerate(iterable_of_args)), iterable_len,
+                                                          max_tasks_active, chunk_size, n_splits, worker_lifespan,
+                                                          progress_bar, worker_init, worker_exit, task_timeout, 
+                                                          worker_init_timeout, worker_exit_timeout, progress_bar_options,
+                                                          progress_bar_style):
 
-            # Check if the next one(s) to return is/are temporarily stored. We use a while-true block with dict.pop() to
-            # keep the temporary store as small as possible
-            while True:
-                if next_result_idx in tmp_results:
-                    yield tmp_results.pop(next_result_idx)
+                # Check if the next one(s) to return is/are temporarily stored. We use a while-true block with dict.pop() to
+                # keep the temporary store as small as possible
+                while True:
+                    if next_result_idx in tmp_results:
+                        yield tmp_results.pop(next_result_idx)
+                        next_result_idx += 1
+                    else:
+                        break
+
+                # Check if the current result is the next one to return. If so, return it
+                if result_idx == next_result_idx:
+                    yield result
                     next_result_idx += 1
+                # Otherwise, temporarily store the current result
                 else:
-                    break
+                    tmp_results[result_idx] = result
 
-            # Check if the current result is the next one to return. If so, return it
-            if result_idx == next_result_idx:
-                yield result
-                next_result_idx += 1
-            # Otherwise, temporarily store the current result
-            else:
-                tmp_results[result_idx] = result
+            # Yield all remaining results
+            for result_idx in sorted(tmp_results.keys()):
+                yield tmp_results.pop(result_idx)
 
-        # Yield all remaining results
-        for result_idx in sorted(tmp_results.keys()):
-            yield tmp_results.pop(result_idx)
-
-        # Notify workers to forget about order
-        self._worker_comms.clear_keep_order()
+        finally:
+            # Notify workers to forget about order, also when the generator is closed early or the call fails
+            self._worker_comms.clear_keep_order()
 
     def imap_unordered(self, func: Callable, iterable_of_args: Union[Sized, Iterable],
                        iterable_len: Optional[int] = None, max_tasks_active: Optional[int] = None,
@@ -826,6 +829,14 @@ class WorkerPool:
 
                 except KeyboardInterrupt:
                     self._handle_exception()
+
+                except BaseException:
+                    # The call is cut short in another way: the generator is closed before all results were consumed, or
+                    # the input iterable raised. The workers can still be busy with (or have queued) tasks of this call,
+                    # so shut them down; the next call starts fresh ones. This is a no-op when the workers were already
+                    # terminated by _handle_exception
+                    self.terminate()
+                    raise
 
         finally:
             if tqdm_manager_owner:
